@@ -266,3 +266,158 @@ def eval_value(v: dict, dom: bool, conc: Conc) -> dict:
     flat = {'ok': False, 'entries': [], 'err': type(ex).__name__}
     canon = {'ok': False, 'v': avalue(None, conc)}
   return {'v': v, 'dom': dom, 'logs': logs, 'probes': probes, 'flat': flat, 'canon': canon}
+
+
+# ------------------------------------------------------------------------------------------------
+# KeyPathSet: S->C replay of behaviours of specs/KeyPathSetM.tla
+
+# pools of concrete keys for the key ids of the spec (distinct as dict keys; '0' vs 0 on purpose)
+KEY_POOL = ['a', 'b', 0, 1, -1, '0', 'x.y', '[0]', 'é', 10, '10', '-1', 'a[0].b', '\U0001F600', -10]
+DOLLAR_POOL = ['$']          # collides with the trie's terminal marker (known design collision)
+
+
+class SetDivergence(Exception):
+  def __init__(self, clause, detail):
+    super().__init__(clause)
+    self.clause = clause
+    self.detail = detail
+
+
+class SetReplayer:
+  """Executes one behaviour of KeyPathSetM.tla on real KeyPathSet objects and compares after every step."""
+
+  def __init__(self, nkeys: int, max_depth: int, regs: List[int], rng: random.Random, with_dollar: bool = False):
+    pool = list(KEY_POOL)
+    rng.shuffle(pool)
+    chosen = pool[:nkeys]
+    if with_dollar:
+      chosen[rng.randrange(nkeys)] = '$'
+    self.keymap = {i + 1: chosen[i] for i in range(nkeys)}
+    self.inv = {(type(v).__name__, v): k for k, v in self.keymap.items()}
+    self.rng = rng
+    self.regs: Dict[int, Any] = {i: KeyPathSet() for i in regs}
+    self.universe = [()]
+    for _ in range(max_depth):
+      self.universe += [p + (k,) for p in self.universe if len(p) == len(self.universe[-1])
+                        for k in range(1, nkeys + 1)] if False else []
+    # all key-id sequences up to max_depth
+    level, allp = [()], [()]
+    for _ in range(max_depth):
+      level = [p + (k,) for p in level for k in range(1, nkeys + 1)]
+      allp += level
+    self.universe = allp
+    self.hits: Dict[str, int] = {}
+    self.resyncs = 0
+
+  # -- concretisation of path arguments (KeyPath object, printed form, or bare int)
+  def kp(self, ids) -> KeyPath:
+    return KeyPath([self.keymap[i] for i in ids])
+
+  def arg(self, ids):
+    p = self.kp(ids)
+    form = self.rng.randrange(4)
+    if form == 0 and KeyPath.parse(str(p)).keys == p.keys:
+      return str(p)
+    if form == 1 and len(ids) == 1 and isinstance(self.keymap[ids[0]], int):
+      return self.keymap[ids[0]]
+    return p
+
+  def ids(self, path: KeyPath):
+    out = []
+    for k in path.keys:
+      out.append(self.inv.get((type(k).__name__, k), 0))
+    return tuple(out)
+
+  def members(self, s) -> List[tuple]:
+    return [self.ids(p) for p in s]
+
+  # -- one step
+  def apply(self, act: list, prev_abs: Dict[int, set]):
+    name = act[0]
+    R = self.regs
+    ret = None
+    if name == 'Add':
+      ret = R[act[1]].add(self.arg(act[2]))
+    elif name == 'Remove':
+      ret = R[act[1]].remove(self.arg(act[2]))
+    elif name == 'Update':
+      R[act[1]].update(R[act[2]])
+    elif name == 'DiffUpdate':
+      R[act[1]].difference_update(R[act[2]])
+    elif name == 'InterUpdate':
+      R[act[1]].intersection_update(R[act[2]])
+    elif name in ('Union', 'Plus', 'Difference', 'Intersection'):
+      a, b = R[act[1]], R[act[2]]
+      res = {'Union': lambda: a.union(b), 'Plus': lambda: a + b,
+             'Difference': lambda: a.difference(b), 'Intersection': lambda: a.intersection(b)}[name]()
+      if res is a or res is b:
+        raise SetDivergence('fresh_result', {'what': 'a pure operation returned one of its operands'})
+      R[act[3]] = res
+    elif name == 'Copy':
+      R[act[2]] = R[act[1]].copy()
+    elif name == 'Rebase':
+      R[act[1]].rebase(self.arg(act[2]))
+    elif name == 'KeyPathPlus':
+      res = self.kp(act[1]) + R[act[2]]
+      if res is R[act[2]]:
+        raise SetDivergence('fresh_result', {'what': 'KeyPath + KeyPathSet returned its operand'})
+      R[act[3]] = res
+    elif name == 'Clear':
+      R[act[1]].clear()
+    elif name == 'Subtree':
+      ret = R[act[1]].subtree(self.arg(act[2]))
+    else:
+      raise ValueError(f'unknown action {name}')
+    return ret
+
+  def compare(self, act: list, ret, state: dict):
+    """Compares every register with the spec state; raises SetDivergence(clause, detail)."""
+    name = act[0]
+    out = state['out']
+    if name in ('Add', 'Remove'):
+      if bool(ret) != bool(out):
+        raise SetDivergence('return', {'expected': bool(out), 'observed': ret})
+    if name == 'Subtree':
+      if out['none']:
+        if ret is not None:
+          raise SetDivergence('subtree', {'expected': None, 'observed': self.members(ret)})
+      else:
+        want = {tuple(p) for p in out['s']}
+        got = None if ret is None else self.members(ret)
+        if got is None or set(got) != want or len(got) != len(want):
+          raise SetDivergence('subtree', {'expected': sorted(want), 'observed': got})
+    spec_abs = state['abs']
+    for i, s in self.regs.items():
+      want = {tuple(p) for p in _reg(spec_abs, i)}
+      got = self.members(s)
+      if set(got) != want or len(got) != len(want):
+        raise SetDivergence('members', {'reg': i, 'expected': sorted(want), 'observed': sorted(got)})
+      if bool(s) != bool(want):
+        raise SetDivergence('bool', {'reg': i, 'expected': bool(want), 'observed': bool(s)})
+      for p in self.universe:
+        if (self.kp(p) in s) != (p in want):
+          raise SetDivergence('in', {'reg': i, 'path': p, 'expected': p in want})
+        if p and s.has_prefix(self.kp(p)) != any(q[:len(p)] == p for q in want):
+          raise SetDivergence('has_prefix', {'reg': i, 'path': p})
+    ks = sorted(self.regs)
+    for i in ks:
+      for j in ks:
+        wi = {tuple(p) for p in _reg(spec_abs, i)}
+        wj = {tuple(p) for p in _reg(spec_abs, j)}
+        e = self.regs[i] == self.regs[j]
+        n = self.regs[i] != self.regs[j]
+        if bool(e) != (wi == wj) or bool(n) == bool(e):
+          raise SetDivergence('eq', {'regs': [i, j], 'expected': wi == wj, 'observed_eq': e, 'observed_ne': n})
+
+  def resync(self, state: dict):
+    """After a known divergence: rebuild every register from the spec state so the walk can go on."""
+    for i in self.regs:
+      self.regs[i] = KeyPathSet([self.kp(p) for p in sorted(tuple(q) for q in _reg(state['abs'], i))])
+    self.resyncs += 1
+
+
+def _reg(fn, i):
+  """abs / trie are functions over Regs: TLC prints 1..n domains as sequences."""
+  if isinstance(fn, dict):
+    return fn[i] if i in fn else fn[str(i)]
+  return fn[i - 1]
